@@ -381,6 +381,8 @@ def check_item(item: tuple) -> dict:
                 "other_prefixes": sorted({bytes([0, 2]) + cls.community_id for cls, _ in overlays.OVERLAYS.values()
                                           if getattr(cls, "community_id", None)} - {d[:22]})}
 
+        control: dict = {}
+
         def rp(label: str, data: bytes) -> dict:
             out = {"item": item, "label": label, "data": data.hex(), "seed": _SEED}
             if hist is not None:
@@ -394,6 +396,7 @@ def check_item(item: tuple) -> dict:
                 delivered.append(data.hex())
             del ENTRIES[:]
             before = {p.public_key.key_to_bin() for p in r_ov.network.verified_peers}
+            svc_before = {k: frozenset(v) for k, v in r_ov.network.services_per_peer.items()}
             sent_before = r_node.endpoint.sent_count
             exc = None
             try:
@@ -426,6 +429,24 @@ def check_item(item: tuple) -> dict:
                                           f"{name}: verified_peers grew by {[g.hex()[:24] for g in grown]} after a "
                                           f"datagram ({label}) whose authentic key is {dkey.hex()[:24] if authentic and dkey else None}",
                                           rp(label, data)))
+            # whatever a datagram teaches the graph may only be booked under the key that signed it
+            svc_after = {k: frozenset(v) for k, v in r_ov.network.services_per_peer.items()}
+            credited = {k for k in set(svc_before) | set(svc_after) if svc_before.get(k) != svc_after.get(k)
+                        and svc_after.get(k)}
+            foreign = credited - ({dkey} if authentic else set())
+            if foreign and target_kind in ("signed", "self-verifying"):
+                res["violations"].append((f"services-credited-to-other-key:{name}:{label}",
+                                          f"{name}: a datagram ({label}) whose authentic key is "
+                                          f"{dkey.hex()[:24] if authentic and dkey else None} changed the advertised services "
+                                          f"of {[k.hex()[:24] for k in foreign]}", rp(label, data)))
+            if (authentic and target_kind == "self-verifying" and control.get("signer_verified") and exc is None
+                    and dkey not in after and dkey != r_ov.my_peer.public_key.key_to_bin()):
+                res["violations"].append((f"authentic-signer-not-verified:{name}:{label}",
+                                          f"{name}: the valid datagram of this kind verifies its signer, but after an "
+                                          f"authentic one ({label}) signed by {dkey.hex()[:24]} that key is not a verified "
+                                          f"peer", rp(label, data)))
+            if label == "valid":
+                control["signer_verified"] = authentic and dkey in after
             if target_kind == "self-verifying" and not authentic and r_node.endpoint.sent_count != sent_before:
                 res["violations"].append((f"response-to-unauthentic:{name}:{label}",
                                           f"{name}: self-verifying handler for id {data[22]} answered a datagram that is "
